@@ -21,7 +21,7 @@ def c02_post(m, env):
 REGISTRY = {
     "C19": {"level": "exploration", "tiers": {
         "quick": {"workers": 8, "n_hist": 1200, "n_neg": 64},
-        "thorough": {"workers": 16, "n_hist": 2000000, "n_neg": 8000}}},
+        "thorough": {"workers": 16, "n_hist": 600000, "n_neg": 8000}}},
     "C14": {"level": "exploration", "tiers": {
         "quick": {"workers": 8, "n_files": 6000},
         "thorough": {"workers": 16, "n_files": 1800000}}},
@@ -29,12 +29,12 @@ REGISTRY = {
         "quick": {"workers": 8, "n_hist": 640},
         "thorough": {"workers": 16, "n_hist": 160000}}},
     "C12": {"level": "exploration", "tiers": {
-        "quick": {"workers": 8, "n_hist": 150, "n_scale": 4,
+        "quick": {"workers": 16, "n_hist": 150, "n_scale": 4,
                   "scale_sizes": [40, 300, 2100, 1100]},
         "thorough": {"workers": 16, "n_hist": 12000, "n_scale": 320,
                      "scale_sizes": [300, 700, 1100, 2100, 4200]}}},
     "C05": {"level": "exploration", "tiers": {
-        "quick": {"workers": 8, "n_hist": 320},
+        "quick": {"workers": 16, "n_hist": 320},
         "thorough": {"workers": 16, "n_hist": 30000}}},
     "C06": {"level": "exploration", "tiers": {
         "quick": {"workers": 8, "n_hist": 480},
@@ -43,21 +43,21 @@ REGISTRY = {
         "quick": {"workers": 8, "n_hist": 480},
         "thorough": {"workers": 16, "n_hist": 180000}}},
     "C03": {"level": "exploration", "tiers": {
-        "quick": {"workers": 8, "n_hist": 480},
+        "quick": {"workers": 16, "n_hist": 480},
         "thorough": {"workers": 16, "n_hist": 90000}}},
     "C04": {"level": "exploration", "tiers": {
-        "quick": {"workers": 8, "n_hist": 480, "n_iso": 8},
+        "quick": {"workers": 16, "n_hist": 480, "n_iso": 8},
         "thorough": {"workers": 16, "n_hist": 90000, "n_iso": 64}}},
     "C10": {"level": "exploration", "tiers": {
-        "quick": {"workers": 8, "n_hist": 480},
+        "quick": {"workers": 16, "n_hist": 480},
         "thorough": {"workers": 16, "n_hist": 90000}}},
     "C16": {"level": "exploration", "tiers": {
-        "quick": {"workers": 8, "n_hist": 400, "n_map": 320},
+        "quick": {"workers": 16, "n_hist": 400, "n_map": 320},
         "thorough": {"workers": 16, "n_hist": 96000, "n_map": 64000}}},
     "C18": {
         "level": "exploration",
         "tiers": {
-            "quick": {"workers": 8, "n_pairs": 480,
+            "quick": {"workers": 16, "n_pairs": 480,
                       "perturbations_per_case": 14},
             "thorough": {"workers": 16, "n_pairs": 24000,
                          "perturbations_per_case": 40},
@@ -66,7 +66,7 @@ REGISTRY = {
     "C17": {
         "level": "fault_enumeration",
         "tiers": {
-            "quick": {"workers": 8, "n_seed": 48, "bitflip_complete_max": 400,
+            "quick": {"workers": 16, "n_seed": 48, "bitflip_complete_max": 400,
                       "bitflip_sample": 800, "substitutions": 150},
             "thorough": {"workers": 16, "n_seed": 1600,
                          "bitflip_complete_max": 1500,
